@@ -140,6 +140,7 @@ Example C15_isolation_nonvacuous :
   tags (tl (solo c_fp c_val all_atomic 2 (count_thread 2 ex_sched) ex_s0) 2) =
     [Some 12; Some 2; Some 22; Some 1].
 Proof. vm_compute. repeat split. Qed.
+Print Assumptions C15_isolation_nonvacuous.
 
 (** inherit: the parent (thread 1) is inside runtime 1 when thread 2 inherits, then leaves it and
     enters runtime 2; thread 2 is still served by runtime 1's handler. *)
@@ -153,6 +154,7 @@ Example C15_inherit_nonvacuous :
   tags (tl (step c_fp c_val all_atomic 2 s') 2) = [Some 11] /\
   tags (tl (step c_fp c_val all_atomic 1 s') 1) = [Some 12].
 Proof. vm_compute. repeat split. Qed.
+Print Assumptions C15_inherit_nonvacuous.
 
 (** register: three threads, one alias written twice; everything finished, all aliases present,
     alias 1 holds its last writer. *)
@@ -163,9 +165,10 @@ Example C15_register_nonvacuous :
   all_done [1; 2; 3] sf = true /\
   sort_kv (table sf) = [(1, 11); (2, 20); (3, 30); (4, 40)].
 Proof. vm_compute. repeat split. Qed.
+Print Assumptions C15_register_nonvacuous.
 
 (** the lost update, computed: flag off, schedule read-read-write-write. *)
-Example C15_lost_update_witness :
+Theorem C15_register_all_present_without_atomicity_refuted :
   let nf := {| enter_atomic := true; exit_atomic := true; current_atomic := true;
                inherit_atomic := true; register_default_atomic := true;
                register_rmw_atomic := false |} in
@@ -173,12 +176,16 @@ Example C15_lost_update_witness :
   all_done [1; 2] sf = true /\ table sf = [(2, 20)] /\
   table (run c_fp c_val all_atomic lost_sched (init_state [] [] lost_progs)) = [(1, 10); (2, 20)].
 Proof. vm_compute. repeat split. Qed.
+Print Assumptions C15_register_all_present_without_atomicity_refuted.
 
-(** cached evaluation: the concrete fingerprint/value functions meet the hypothesis; threads 1
+(** cached evaluation: the concrete fingerprint/value functions of the correspondence runs meet
+    the hypothesis (trivially: there the value IS the fingerprint, see the non-degenerate instance
+    below); threads 1
     and 2 (same fingerprint, options differing in an unread key) BOTH compute and BOTH store;
     thread 3 has another fingerprint; each gets the value of its own options. *)
 Example C15_eval_hypothesis_holds : forall o o', c_fp o = c_fp o' -> c_val o = c_val o'.
 Proof. intros o o' H. exact H. Qed.
+Print Assumptions C15_eval_hypothesis_holds.
 
 Definition ex_ev_progs : list (thread * list op) :=
   [(1, [EvalCached 31; EvalCached 41]); (2, [EvalCached 32]); (3, [EvalCached 41])].
@@ -189,3 +196,37 @@ Example C15_eval_nonvacuous :
   evals (tl sf 1) = [(31, 3); (41, 4)] /\ evals (tl sf 2) = [(32, 3)] /\
   evals (tl sf 3) = [(41, 4)] /\ cache sf = [(3, 3); (4, 4)].
 Proof. vm_compute. repeat split. Qed.
+Print Assumptions C15_eval_nonvacuous.
+
+(** A NON-DEGENERATE instance of the soundness hypothesis [fpf o = fpf o' -> valf o = valf o']:
+    the value function is not the fingerprint function but a non-injective function of it
+    (parity of the tens digit): different fingerprints may carry equal values, and the value of
+    an option set is in general not its fingerprint.  Threads 1 and 2 have the same fingerprint
+    (options differing in an unread digit), thread 3 another fingerprint WITH THE SAME value,
+    thread 1's second evaluation a third fingerprint with another value; under an interleaving
+    where 1 and 2 both compute and both store, each evaluation gets the value of its own options
+    and the cache ends with one entry per fingerprint. *)
+Definition c_val2 (o : opts) : value := N.modulo (N.div o 10) 2.
+
+Example C15_eval_hypothesis_holds_nondegenerate :
+  (forall o o', c_fp o = c_fp o' -> c_val2 o = c_val2 o') /\
+  (exists o o', c_fp o <> c_fp o' /\ c_val2 o = c_val2 o') /\
+  (exists o, c_val2 o <> c_fp o).
+Proof.
+  split; [|split].
+  - intros o o' H. unfold c_val2. unfold c_fp in H. now rewrite H.
+  - exists 31, 51. split; [vm_compute; discriminate|vm_compute; reflexivity].
+  - exists 31. vm_compute. discriminate.
+Qed.
+Print Assumptions C15_eval_hypothesis_holds_nondegenerate.
+
+Definition ex_ev_progs2 : list (thread * list op) :=
+  [(1, [EvalCached 31; EvalCached 41]); (2, [EvalCached 32]); (3, [EvalCached 51])].
+Example C15_eval_nonvacuous_nondegenerate :
+  let sf := run c_fp c_val2 all_atomic
+              [1; 2; 1; 2; 1; 2; 3; 3; 1; 2; 3; 3; 1; 1; 1; 1] (init_state [] [] ex_ev_progs2) in
+  all_done [1; 2; 3] sf = true /\
+  evals (tl sf 1) = [(31, 1); (41, 0)] /\ evals (tl sf 2) = [(32, 1)] /\
+  evals (tl sf 3) = [(51, 1)] /\ sort_kv (cache sf) = [(3, 1); (4, 0); (5, 1)].
+Proof. vm_compute. repeat split. Qed.
+Print Assumptions C15_eval_nonvacuous_nondegenerate.
